@@ -54,9 +54,13 @@ def main():
             mod.run_shard(shard, ctx)
             out = ctx.result()
             out["error"] = None
-        except BaseException:  # noqa: BLE001
+        except BaseException as e:  # noqa: BLE001
+            from mc.ctx import unguarded_violation
+
+            tb = traceback.format_exc()[-4000:]
+            reported = isinstance(e, Exception) and unguarded_violation(ctx, e, getattr(ctx, "last_case", None))
             out = ctx.result()
-            out["error"] = traceback.format_exc()[-4000:]
+            out["error"] = None if reported else tb
         _write_msg(resp, {"shard": shard, "result": out})
 
 
